@@ -319,3 +319,71 @@ def sm4(P, C):
             kn = [(i, st) for i, n, st in hdu_states(f) if n == "fits_get_img_size" and any(f.k(a) == "ForStmt" for a in f.ancestors(i))]
             C.ob("SM-4", f.name, "knot-count-in-extension", bool(kn) and all(st == "other" for _, st in kn), f.loc(kn[0][0]) if kn else f.where(),
                  "the knot count is read after moving to the KNOTS extension")
+
+
+# --------------------------------------------------------------------------
+# SM-6: a failed HDU move is not papered over
+# --------------------------------------------------------------------------
+def sm6(P, C, floor=2):
+    from . import ed
+    C.rule("SM-6", "after fits_movnam_hdu / fits_movabs_hdu / fits_movrel_hdu the status word of that call is not reset to 0 before it has been "
+           "tested zero: cfitsio's inherited status turns every later call into a no-op after a failed move, and clearing it lets the next "
+           "read run on whatever HDU was current before (the previous KNOTS extension)", floor=floor)
+    READS = ("fits_get_img_size", "fits_read_pix", "fits_read_key", "fits_get_img_dim", "fits_get_hdrspace", "fits_read_keyn", "fits_get_img_type",
+             "countAuxKeywords", "readOrder")
+    for f in [g for g in P.functions.values() if g.unit == "driver" and g.name in ("read_fits_core", "estimateMemory") and "splinetable<" in g.qname]:
+        def nm(i):
+            cal = f.nodes[i].get("callee")
+            return (f.call_macro(i) or cal["name"]) if cal else None
+
+        def transfer(st, e, b, j):
+            if e.get("kind") != "stmt":
+                return st
+            i = e["n"]
+            n = f.nodes[i]
+            if n["k"] == "CallExpr" and nm(i) in HDU_MOVES:
+                sv = ed.status_arg(f, i)
+                if sv is not None and not isinstance(sv, tuple):
+                    return frozenset(t for t in st if t[0] != sv and t[1] != "stale") | {(sv, "pending", f.loc(i))}
+                return frozenset(t for t in st if t[1] != "stale")
+            ap = ts.assign_parts(f, i)
+            if ap and ap[1] is not None and n.get("op") == "=":
+                t_ = f.strip(ap[0])
+                if f.k(t_) == "DeclRefExpr" and f.nodes[f.strip(ap[1])].get("cv") == 0:
+                    vid = f.nodes[t_]["decl"]["id"]
+                    return frozenset((v, "stale" if (v == vid and s_ == "pending") else s_, w) for (v, s_, w) in st)
+            return st
+
+        def edge(st, b, k, s, cond):
+            if cond is None or cond < 0 or len(f.blocks[b]["succ"]) != 2:
+                return st
+            out = set()
+            for (v, s_, w) in st:
+                if s_ == "pending":
+                    z = ed.is_zero_test(f, cond, v)
+                    if z is not None:
+                        zero_here = (z == "zero-when-true") == (k == 0)
+                        if zero_here:
+                            continue                     # move succeeded on this edge: nothing pending
+                out.add((v, s_, w))
+            return frozenset(out)
+        IN, OUT = core.dataflow(f, frozenset(), transfer, lambda a, b: a | b, edge)
+        moves = 0
+        bad = []
+        for b, blk in f.blocks.items():
+            if b not in IN:
+                continue
+            st = IN[b]
+            for j, e in enumerate(blk["elems"]):
+                if e.get("kind") == "stmt":
+                    i = e["n"]
+                    if f.k(i) == "CallExpr":
+                        if nm(i) in HDU_MOVES:
+                            moves += 1
+                        elif nm(i) in READS and any(s_ == "stale" for (_v, s_, _w) in st):
+                            bad.append((i, nm(i), [w for (_v, s_, w) in st if s_ == "stale"][0]))
+                st = transfer(st, e, b, j)
+        C.ob("SM-6", f.name, "failed-move-not-cleared", not bad and moves > 0, f.loc(bad[0][0]) if bad else f.where(),
+             ("%d HDU move(s); no read follows a move whose status was reset without having been tested zero" % moves) if not bad else
+             "%s at %s runs after the status of the move at %s was reset to 0 without a test: if the move failed, it reads the HDU that was current before"
+             % (bad[0][1], f.loc(bad[0][0]), bad[0][2]))
